@@ -1,6 +1,6 @@
 (** C09 — non-vacuity examples. *)
 From V Require Import Base.Util Gql.Ast Writer.Wop Ts.TsType Ts.TsDen
-  C10.Model C10.Spec C10.NameProofs C10.Examples C09.Model C09.Spec C09.Proofs.
+  C10.Model C10.Spec C10.NameProofs C10.Examples C09.Model C09.Spec C09.Given C09.Proofs C09.Proofs2 C09.Proofs3 C09.Proofs4.
 
 (** over C10's example schema: query Q($a: [In!]!, $b: E, $d: Date = null) *)
 Definition ex_vds : list vardef :=
@@ -52,4 +52,14 @@ Example ex_config_off_rejects_omission :
   has_type_b (vars_env ex_ms) 40 (variables_type (oopts_from_config (Some false)) vds) (VObj []) = Some false
   /\ has_type_b (vars_env ex_ms) 40 (variables_type (oopts_from_config (Some true)) vds) (VObj []) = Some true
   /\ has_type_b (vars_env ex_ms) 40 (variables_type (oopts_from_config None) vds) (VObj []) = Some true.
+Proof. vm_compute. repeat split; reflexivity. Qed.
+
+(** the guard of C09_main is satisfiable for both option values (lists of non-null input objects,
+    a nullable enum, a nullable scalar with a default), and Given_c separates the cases *)
+Definition ex_opts_off : sopts := mkSOpts (so_scalars ex_opts) (so_meta ex_opts) false (so_runtime ex_opts).
+Example ex_main_guard : c09_guard ex_opts ex_doc true ex_vds = true /\ c09_guard ex_opts_off ex_doc false ex_vds = true.
+Proof. vm_compute. split; reflexivity. Qed.
+Example ex_given :
+  let v := VObj [(s "a", VList [])] in
+  given_c ex_doc true ex_vds v = true /\ given_c ex_doc false ex_vds v = false /\ coercible ex_opts ex_doc ex_vds v = true.
 Proof. vm_compute. repeat split; reflexivity. Qed.
